@@ -14,6 +14,12 @@ func (l *Local) Readdir(offset uint64, count uint32) (p9.Dirents, error) {
 		cursor = uint64(0)
 	)
 
+	// Offsets count entries from the beginning of the directory, so every
+	// call has to scan the directory stream from its start.
+	if _, err := l.file.Seek(0, io.SeekStart); err != nil {
+		return nil, err
+	}
+
 	for len(p9Ents) < int(count) {
 		singleEnt, err := l.file.Readdirnames(1)
 
@@ -27,7 +33,7 @@ func (l *Local) Readdir(offset uint64, count uint32) (p9.Dirents, error) {
 		cursor++
 
 		// cursor \in (offset, offset+count)
-		if cursor < offset || cursor > offset+uint64(count) {
+		if cursor <= offset || cursor > offset+uint64(count) {
 			continue
 		}
 
